@@ -120,6 +120,15 @@ func genLargeProject(seed int64) (*proj.Project, int, int) {
 				}
 			}
 		}
+		// changed files whose paths differ only in case (an order that ignores case leaves their
+		// relative order to chance)
+		for _, pk := range p.Pkgs {
+			if !pk.IsMain && r.Intn(2) == 0 {
+				lo, up := filepath.Join(pk.Dir, "zcase.go"), filepath.Join(pk.Dir, "Zcase.go")
+				p.ExtraOld[lo], p.ExtraNew[lo] = dec(pk.Name, "CaseLower", 1), dec(pk.Name, "CaseLower", 2)
+				p.ExtraOld[up], p.ExtraNew[up] = dec(pk.Name, "CaseUpper", 1), dec(pk.Name, "CaseUpper", 2)
+			}
+		}
 		o, n := p.Files(true), p.Files(false)
 		ch := 0
 		for path, v := range n {
